@@ -263,7 +263,9 @@ def run_case(case: dict) -> dict:
                         continue
                     ystar = net.steady(slow | {kin_name: kin_v, other[0]: ov})
                     counters["mc_scan:small_slow_rows_compared"] = counters.get("mc_scan:small_slow_rows_compared", 0) + 1
-                    if any(abs(row[k_] - ystar[k_]) > 1e-3 * abs(ystar[k_]) + 1e-18 for k_ in ystar):
+                    # (5 %: the relaxation time of the slowed network is of the order of the search's own step, so the relative
+                    # criterion stops a little early; a transient taken for a steady state is off by tens of per cent)
+                    if any(abs(row[k_] - ystar[k_]) > 5e-2 * abs(ystar[k_]) + 1e-18 for k_ in ystar):
                         viols.append(core.viol("mc.scan_steady_state(rel_norm=True): a state that is not the steady state of its row was reported as steady", None, net=net.to_json(), parameters=slow | {kin_name: kin_v, other[0]: ov}, got=row, expected=ystar))
                         break
         sample = {"scan": {kout: vals}, "net": net.to_json(), "parallel": par}
